@@ -197,8 +197,10 @@ fn exec_async(cx: &Ctx, line: &str, out: &mut Out) -> String {
     let s = run_case(cx, &kv);
     let s_calls = fbrh::scriptfs::TAP.with(|t| t.borrow().join(";"));
     fbrh::scriptfs::TAP.with(|t| t.borrow_mut().clear());
-    let a = run_case_async(cx, &kv);
+    let mut a = run_case_async(cx, &kv);
     let a_calls = fbrh::scriptfs::TAP.with(|t| t.borrow().join(";"));
+    a.calls = a_calls.clone();
+    judge(&a, &kv, line, &req, ks(&kv, "t") == "fusedev", true, out);
     let s_bytes: Vec<u8> = s.sys.concat();
     let a_bytes: Vec<u8> = a.sys.concat();
     let impl_line = format!("calls={} sys={} area={} ret={}", a_calls, hex(&a_bytes), a.area, a.ret);
@@ -478,10 +480,21 @@ fn exec(cx: &Ctx, line: &str, out: &mut Out) -> String {
         }
     }
 
+    judge(&run, &kv, line, &req, fusedev, false, out);
+    let op = if req.len() >= 8 { le32(&req, 4) } else { u32::MAX };
+    out.class(&format!("{}|{}|{}|{}|{}", op, ks(&kv, "t"), ks(&kv, "ans"), run.ret.split(':').next().unwrap_or(""), if run.ret.starts_with("err") { run.ret.as_str() } else { "" }));
+    impl_line
+}
+
+/// direct oracles on one run of the real server (implementation alone, no model); `asyncp`: the
+/// run went through `async_handle_message` (keys carry `async:`)
+fn judge(run: &Run, kv: &Kv, line: &str, req: &[u8], fusedev: bool, asyncp: bool, out: &mut Out) {
+    let run = run;
     // ---------------- direct oracles (implementation alone, no model) ----------------
     let op = if req.len() >= 8 { le32(&req, 4) } else { u32::MAX };
     let unique = if req.len() >= 16 { le64(&req, 8) } else { 0 };
     let prop = |p: &str, key: String, what: String, out: &mut Out| {
+        let key = if asyncp { key.replacen(':', ":async:", 1) } else { key };
         let v = serde_json::json!({"prop": p, "key": key, "case": line, "what": what});
         use std::io::Write;
         writeln!(out.oracle, "{}", v).unwrap();
@@ -550,8 +563,6 @@ fn exec(cx: &Ctx, line: &str, out: &mut Out) -> String {
             }
         }
     }
-    out.class(&format!("{}|{}|{}|{}|{}", op, ks(&kv, "t"), ks(&kv, "ans"), run.ret.split(':').next().unwrap_or(""), if run.ret.starts_with("err") { run.ret.as_str() } else { "" }));
-    impl_line
 }
 
 fn run_case_logged(cx: &Ctx, kv: &Kv) -> Run {
